@@ -1159,3 +1159,23 @@ def _strings_fields(I, st, args):
             parts = parts + [Str(s[start:])]
         return I.new_slice(st_, 'string', parts) if parts else None
     return rec(st, 0, None, [])
+
+
+@model('bytes.Replace', 'bytes.ReplaceAll')
+def _bytes_replace(I, st, args):
+    cells = [Str(I.slice_cells(st, a)) for a in args[:3]]
+    r = _strings_replace(I, st, cells + list(args[3:]))
+
+    def wrap(v):
+        if type(v) is tuple and len(v) == 2 and v[0] == 'alts':
+            return ('alts', [(c, (lambda p: (lambda s_: wrap(p(s_) if callable(p) else p)))(p)) for c, p in v[1]])
+        return None     # placeholder, replaced below
+    # expand through the interpreter: every resolved string becomes a fresh byte slice
+    outs = []
+    from .interp import Outcome
+    for o in I.resolve(st, r):
+        if o.kind == 'ret':
+            outs.append(Outcome(o.st, 'ret', I.new_slice(o.st, 'uint8', tuple(o.val))))
+        else:
+            outs.append(o)
+    return ('outcomes', outs)
